@@ -10,7 +10,7 @@ package main
 //	x header set (c02HeaderSets: minimal; multi-valued + letter-case variants of names in request and response;
 //	  multi-valued Cache-Control, benign and with no-store as second / first / only value; a 65536-byte value;
 //	  30 fields; empty values and values holding commas; an uncached field; HEAD; POST; 404; 599)
-//	x signature window expires-date {3600}             (thorough adds 2 and 604800)
+//	x signature window expires-date {3600}             (thorough, and quick on the rs=16 / minimal-header slice, add 2, 604799 and 604800)
 //
 // Every exchange is built through the library (NewExchange, MiEncodePayload, AddSignatureHeader with the real
 // ECDSA signer), verified in memory at t in {date-1, date, date+1, mid, expires-1, expires, expires+1}, written,
@@ -431,7 +431,10 @@ func c02Roundtrip(c *mc.Ctx) {
 	hs := c02HeaderSets[c.Free(len(c02HeaderSets), "header-set")]
 	windows := []int64{3600}
 	if thorough {
-		windows = []int64{3600, 2, 604800}
+		windows = []int64{3600, 2, 604799, 604800}
+	} else if rs == 16 && hs.name == c02HeaderSets[0].name {
+		// quick: the longest lifetime the format allows (and its neighbour, and a 2-second one) on one slice of the grid
+		windows = []int64{3600, 2, 604799, 604800}
 	}
 	window := windows[c.Free(len(windows), "window")]
 	// Request-URL spellings that are not fixed points of Go's url.Parse(..).String(): the URL is
@@ -718,7 +721,7 @@ func init() {
 	register(&mc.Property{
 		ID:    "C02",
 		Level: "model_checking",
-		Rule:  "C02/roundtrip: full product (no deviation bound) of version {1b1,1b2,1b3} x key {P-256, P-384} x MI record size {1,2,16,4096,16384; thorough +3,17,255,256,16383} x payload length {0,1,rs-1,rs,rs+1,2rs,2rs+1; thorough +3rs-1,3rs,3rs+1} (<= 40000, duplicates removed) x 20 header sets (minimal; one field name stored under four letter cases (the library may decline; if it signs and writes, verdicts and everything but header equality are judged); four responses that already carry Digest (other algorithm / empty), an empty MI-Draft2 or Content-Encoding before MI-encoding: the library may decline, otherwise the full oracle applies; multi-valued fields with lower/UPPER/MiXeD names in request and response; multi-valued Cache-Control benign / no-store second / first / only; 65536-byte value and 262-byte name; 30 fields; empty and comma-holding values; Set-Cookie; HEAD; POST; 404; 599; non-canonical policy keys (recorded only)) x window {3600; thorough +2, 604800}; each exchange is signed with real ECDSA, verified at 7 instants, written, read back by refsxg and by ReadExchange and verified again at the same instants. C02/limits: the 18 length-field boundary exchanges (fallback URL 65535/65536 in all versions, Signature header 16384/16385 and header block 524288/524289 in b2/b3, both 3-byte fields at 2^24-1/2^24 in b1). A round-trip case is non-trivial when the generator knows it meets the acceptance policy, so the whole verdict vector and the returned payload are judged; a limits case is non-trivial when it is over the limit.",
+		Rule:  "C02/roundtrip: full product (no deviation bound) of version {1b1,1b2,1b3} x key {P-256, P-384} x MI record size {1,2,16,4096,16384; thorough +3,17,255,256,16383} x payload length {0,1,rs-1,rs,rs+1,2rs,2rs+1; thorough +3rs-1,3rs,3rs+1} (<= 40000, duplicates removed) x 20 header sets (minimal; one field name stored under four letter cases (the library may decline; if it signs and writes, verdicts and everything but header equality are judged); four responses that already carry Digest (other algorithm / empty), an empty MI-Draft2 or Content-Encoding before MI-encoding: the library may decline, otherwise the full oracle applies; multi-valued fields with lower/UPPER/MiXeD names in request and response; multi-valued Cache-Control benign / no-store second / first / only; 65536-byte value and 262-byte name; 30 fields; empty and comma-holding values; Set-Cookie; HEAD; POST; 404; 599; non-canonical policy keys (recorded only)) x window {3600; on the rs=16 / minimal-header slice and in thorough +2, 604799, 604800}; each exchange is signed with real ECDSA, verified at 7 instants, written, read back by refsxg and by ReadExchange and verified again at the same instants. C02/limits: the 18 length-field boundary exchanges (fallback URL 65535/65536 in all versions, Signature header 16384/16385 and header block 524288/524289 in b2/b3, both 3-byte fields at 2^24-1/2^24 in b1). A round-trip case is non-trivial when the generator knows it meets the acceptance policy, so the whole verdict vector and the returned payload are judged; a limits case is non-trivial when it is over the limit.",
 		Assumptions: []string{
 			"refsxg (independent parser / serializer of the file layout) and refcbor are correct",
 			"the MI digest value is taken from the implementation (C14 checks MI encoding); the round trip is judged on what the library itself produced when signing",
